@@ -151,6 +151,20 @@ def show(hier):
                    for i, t in enumerate(hier))
 
 
+def case_of(route, kind, hier, found_in):
+  """The replayable case, with the generated texts for the reader's benefit."""
+  hier = as_tuple(hier)
+  refused = cpython_classes(hier)[1]
+  case = {"route": route, "kind": kind, "hier": as_list(hier), "found_in": as_list(found_in)}
+  if route == "S":
+    case["source"] = Program(hier, refused, "all").text
+  elif route in ("P", "D"):
+    case["stub a.pyi"] = stub_text(hier)
+    if route == "P":
+      case["reader"] = reader_text(hier, "a", refused, "all")[0]
+  return case
+
+
 def key_of(route, kind, hier):
   return vrun.jkey({"route": route, "kind": kind, "hier": as_list(hier)})
 
@@ -631,14 +645,12 @@ def run(rep, tier, seed):
     for (route, kind, m), found_in in sorted(minimal.items()):
       again = confirmed.get((route, m), {})
       if kind in again:
-        rep.violation(key_of(route, kind, m), again[kind],
-                      {"route": route, "kind": kind, "hier": as_list(m), "found_in": as_list(found_in)})
+        rep.violation(key_of(route, kind, m), again[kind], case_of(route, kind, m, found_in))
       else:
         # seen with the per-process loader only: re-check the original case with a fresh loader
         again = vrun.isolated(work_confirm, (route, found_in))
         if kind in again:
-          rep.violation(key_of(route, kind, found_in), again[kind],
-                        {"route": route, "kind": kind, "hier": as_list(found_in), "found_in": as_list(found_in)})
+          rep.violation(key_of(route, kind, found_in), again[kind], case_of(route, kind, found_in, found_in))
         else:
           rep.cap("%s/%s on %s seen with the per-process loader but not with a fresh loader" % (route, kind, show(m)))
   finally:
@@ -649,8 +661,7 @@ def run(rep, tier, seed):
   for (route, kind), hs in sorted(failing.items()):
     rep.outcome("failing:%s:%s" % (route, kind), len(hs))
   for (kind, m), (summary, found_in) in sorted(pure_found.items()):
-    rep.violation(key_of("M", kind, m), summary,
-                  {"route": "M", "kind": kind, "hier": as_list(m), "found_in": as_list(found_in)})
+    rep.violation(key_of("M", kind, m), summary, case_of("M", kind, m, found_in))
     rep.outcome("violation:M:%s" % kind)
 
   rep.cov.update({
